@@ -199,7 +199,7 @@ def range_proofs(ctx):
             raise core.ToolError("TLAPS did not prove spec/proofs/%s:\n" % mod + p.stdout[-1500:])
         ctx.classes["tlaps_obligations_proved"] = ctx.classes.get("tlaps_obligations_proved", 0) + int(m.group(1))
     ctx.assumptions.append("TLAPS 1.6 (SMT back end Z3) checks proofs correctly")
-    for (w, s, md) in [(2, 4, 3), (3, 6, 1), (2, 6, 1)] + ([(2, 6, 2), (4, 8, 1), (2, 8, 1)] if ctx.tier == "thorough" else []):
+    for (w, s, md) in [(2, 4, 3), (3, 6, 1), (2, 6, 1)] + ([(2, 6, 2), (2, 8, 1)] if ctx.tier == "thorough" else []):
         st = ctx.tlc("MC_RangeBridge", {"W": w, "S": s, "MaxData": md}, invariants=["DecBridge", "EncBridge", "SealBridge"], workers=12, timeout=3000, label="MC_RangeBridge_%d_%d" % (w, s))
         if st["spec_violation"]:
             raise core.ToolError("MC_RangeBridge: Range.tla does not compute the step proved in spec/proofs at W=%d S=%d:\n%s" % (w, s, st.get("counterexample", "")))
@@ -273,7 +273,7 @@ def c06(ctx):
 
 # (W, S, MaxSyms, PSet)
 RANGE_QUICK = [(2, 4, 4, "{1,2}"), (2, 6, 3, "{1,2}"), (2, 6, 5, "{2}"), (3, 6, 2, "{1,2,3}"), (3, 6, 3, "{2}")]
-RANGE_THOROUGH = [(2, 4, 5, "{1,2}"), (2, 6, 5, "{1,2}"), (2, 8, 4, "{1,2}"), (3, 6, 3, "{1,2,3}"), (3, 9, 3, "{2,3}"), (4, 8, 2, "{2,4}"), (4, 8, 3, "{2}"), (4, 8, 2, "{1,2,3,4}")]
+RANGE_THOROUGH = [(2, 4, 5, "{1,2}"), (2, 6, 4, "{1,2}"), (2, 6, 6, "{2}"), (2, 8, 3, "{1,2}"), (3, 6, 3, "{2,3}"), (3, 9, 2, "{2,3}"), (4, 8, 2, "{2,4}")]
 
 
 def range_hists(ctx, invs, mode, widths=None, spec_violation_is=None):
